@@ -709,6 +709,116 @@ RECURSION_NEEDS_HANDLER = {
 }
 
 
+def _structural_descent(ctx, cg, scc: set) -> tuple:
+    """Size-change argument for a recursive group that is not in the table: every call from a member of the group to a member
+    passes (a) a strict part of one of the caller's parameters -- an attribute / subscript / element of it, or of a local
+    bound to such a part -- which counts as descent, or (b) a parameter unchanged, which is neutral.  The group terminates
+    on finite acyclic inputs when every cycle contains a descending call, i.e. when the neutral calls alone form no cycle.
+    Returns (proved, explanation)."""
+    import itertools
+
+    members = {f: ctx.index.func(f) for f in scc if ctx.index.has_func(f)}
+    hooks: set = set()
+    neutral_edges = set()
+    n_desc = 0
+    for f, fn in members.items():
+        params = {a.arg for a in fn.args.args + fn.args.kwonlyargs} - {"self", "cls", "ctx", "wtp"}
+        part, whole = set(), set(params)
+        # locals bound to (parts of) parameters, to a fixed point
+        for _ in range(4):
+            for n in walk_no_nested(fn):
+                tgt = val = None
+                if isinstance(n, ast.Assign) and len(n.targets) == 1:
+                    tgt, val = n.targets[0], n.value
+                elif isinstance(n, (ast.For, ast.comprehension)):
+                    tgt, val = n.target, n.iter
+                    base = val
+                    while isinstance(base, ast.Call) and isinstance(base.func, ast.Attribute) and base.func.attr in ("items", "values", "keys"):
+                        base = base.func.value
+                    while isinstance(base, ast.Call) and isinstance(base.func, ast.Name) and base.func.id in ("sorted", "reversed", "enumerate", "list", "tuple") and base.args:
+                        base = base.args[0]
+                    if _rooted(base, whole | part):
+                        for x in ast.walk(tgt):
+                            if isinstance(x, ast.Name):
+                                part.add(x.id)
+                    continue
+                if tgt is None or not isinstance(tgt, ast.Name):
+                    continue
+                if isinstance(val, ast.Call) and unparse(val.func).split(".")[-1].endswith(("_fn", "_hook", "_handler")) \
+                        and not {c_ for c_ in cg.callees_in(f, val) if not c_.startswith("%")} and any(_rooted(a, whole | part) for a in val.args):
+                    # the replacement a caller-supplied hook returns for (a part of) the input: the hook's contract, assumed finite
+                    part.add(tgt.id)
+                    hooks.add(unparse(val.func))
+                    continue
+                if isinstance(val, ast.Name) and val.id in whole:
+                    whole.add(tgt.id)
+                elif isinstance(val, ast.Name) and val.id in part:
+                    part.add(tgt.id)
+                elif isinstance(val, (ast.Attribute, ast.Subscript)) and _rooted(val, whole | part):
+                    part.add(tgt.id)
+        for c in walk_no_nested(fn):
+            if not isinstance(c, ast.Call):
+                continue
+            shallow = ast.copy_location(ast.Call(func=c.func, args=[], keywords=[]), c)   # the callee of THIS call, not of calls in its arguments
+            callees = cg.callees_in(f, shallow) & set(members)
+            args = list(c.args) + [k.value for k in c.keywords]
+            # map(g, xs) / filter: g is applied to the elements of xs
+            if isinstance(c.func, ast.Name) and c.func.id in ("map", "filter") and len(c.args) >= 2:
+                tgt_names = {q for q in members if isinstance(c.args[0], (ast.Name, ast.Attribute)) and q.split(".")[-1] == unparse(c.args[0]).split(".")[-1]}
+                for q in tgt_names:
+                    if all(_rooted(_strip_iter(a), whole | part) for a in c.args[1:]):
+                        n_desc += 1
+                    else:
+                        neutral_edges.add((f, q))
+                continue
+            if not callees:
+                continue
+            desc = any((isinstance(a, (ast.Attribute, ast.Subscript)) and _rooted(a, whole | part)) or (isinstance(a, ast.Name) and a.id in part) for a in args)
+            same = any(isinstance(a, ast.Name) and a.id in whole for a in args)
+            for q in callees:
+                if desc:
+                    n_desc += 1
+                elif same:
+                    neutral_edges.add((f, q))
+                else:
+                    return False, "the call `{}` in {} passes nothing derived from a parameter".format(unparse(c)[:50], f)
+    # do the neutral edges alone contain a cycle?
+    adj = {}
+    for a, b in neutral_edges:
+        adj.setdefault(a, set()).add(b)
+    state = {}
+
+    def dfs(x) -> bool:
+        state[x] = 1
+        for y in adj.get(x, ()):
+            if state.get(y) == 1 or (state.get(y) is None and dfs(y)):
+                return True
+        state[x] = 2
+        return False
+
+    for x in list(adj):
+        if state.get(x) is None and dfs(x):
+            return False, "a cycle of calls passes the parameter on unchanged"
+    if n_desc == 0:
+        return False, "no descending call found"
+    return True, "every cycle of the group descends into a part of a parameter ({} descending call sites{})".format(
+        n_desc, "; values returned by the caller-supplied hook {} are assumed finite".format(", ".join(sorted(hooks))) if hooks else "")
+
+
+def _rooted(e, names: set) -> bool:
+    """an attribute / subscript chain (or a bare name) rooted at one of the names"""
+    while isinstance(e, (ast.Attribute, ast.Subscript)):
+        e = e.value
+    return isinstance(e, ast.Name) and e.id in names
+
+
+def _strip_iter(e):
+    while isinstance(e, ast.Call) and ((isinstance(e.func, ast.Attribute) and e.func.attr in ("items", "values", "keys"))
+                                       or (isinstance(e.func, ast.Name) and e.func.id in ("sorted", "reversed", "enumerate", "list", "tuple") and e.args)):
+        e = e.func.value if isinstance(e.func, ast.Attribute) else e.args[0]
+    return e
+
+
 def rule_r8(ctx, cg: CallGraph) -> RuleResult:
     """Every cycle of the call graph on the expansion path either passes through expand_recurse,
     whose depth and loop guards (R6) bound it, or is one of the enumerated structural recursions.
@@ -737,6 +847,11 @@ def rule_r8(ctx, cg: CallGraph) -> RuleResult:
         reason = next((why for pre, why in STRUCTURAL_RECURSION.items() if f == pre or (pre.endswith((".", "_")) and f.startswith(pre))), None)
         if reason:
             rr.ok(f, "structural recursion: " + reason, {"fn": f})
+            continue
+        scc = {g for g in reach_without_cut(f) if f in reach_without_cut(g)} | {f}
+        proved, how = _structural_descent(ctx, cg, scc)
+        if proved:
+            rr.ok(f, "structural recursion (size-change argument): " + how, {"fn": f, "group": sorted(scc)})
         else:
             fn = ctx.index.func(f)
             rr.bad(Finding("C05.R8", ctx.index.mod(f.split(".")[0]).relpath, f, "recursive call cycle through " + f.split(".")[-1],
